@@ -26,6 +26,7 @@ ARCH = {
                               'moduli': [2048, 4096], 'gex_style': 'openssh'}, 'argv': []},
     'gex-first': {'spec': {'banner': 'SSH-2.0-dropbear_2020.81', 'kex': ['diffie-hellman-group-exchange-sha256', 'curve25519-sha256'], 'key': ['ssh-rsa', 'ssh-ed25519'], 'enc': ['aes128-ctr'], 'mac': ['hmac-sha2-256'], 'hostkeys': dict(RSA, **HK_ED), 'moduli': [3072], 'gex_style': 'roundup'}, 'argv': []},
     'ssh1':     {'spec': {'proto': 1, 'cmask': 0x4c, 'amask': 0x2c}, 'argv': ['-1']},
+    'ssh1-len8': {'spec': {'proto': 1, 'cmask': 0x4c, 'amask': 0x2c, 'hkey_bits': 1025}, 'argv': ['-1']},     # a public-key message whose packet length is a multiple of 8 (eight bytes of padding)
     'ssh1-fallback': {'spec': {'proto': 1, 'cmask': 0x4c, 'amask': 0x2c}, 'argv': [], 'hs_conn': 1},     # SSH-2 attempt answered with 'Protocol major versions differ.', then SSH-1
     'always-differ': {'spec': {'proto': 1, 'always_differ': True}, 'argv': [], 'hs_conn': 1, 'no_report': True},     # answers every attempt, also the SSH-1 retry, with the version-mismatch text
     'client':   {'spec': {'banner': 'SSH-2.0-OpenSSH_9.0', 'kex': ['curve25519-sha256', 'kex-strict-c-v00@openssh.com'], 'key': ['ssh-ed25519', 'rsa-sha2-512'], 'enc': ['aes128-ctr'], 'mac': ['hmac-sha2-256']}, 'argv': ['-c'], 'client': True},
@@ -665,5 +666,5 @@ def run(ctx):
                     seeds.append(bytes([{'kexdh_reply': 0, 'gex_reply': 0, 'gex_group': 1, 'kexinit': 2}[what]]) + payload[1:])
         fuzzrun.run_into(ctx, 'c09_parsers', runs=250000, shards=16, seeds_corpus=seeds[:12], max_len=2048)
     ctx.note(enumerated_fault_cases=len(allc), archetypes=sorted(ARCH), timeout_s=TIMEOUT)
-    return ctx.finish('fault_enumeration', 'for each of 9 transcript archetypes (Ed25519-only, RSA+certificates+GEX, GEX-first, SSH-1 with -1, SSH-1 through the version-mismatch fallback, a peer answering every attempt with the version-mismatch text, client audit, policy audit, JSON) a clean run records every message of every connection; injected: truncation at every byte offset (sampled above 80 bytes in quick) then close / stall, every byte inverted / bit-flipped, close / stall / reset / duplicate, payload truncated at every byte and re-framed, every structural length field := 0, len-1, len+1, 2^31-1, 2^32-1, payload length, every message type from {0,1,2,4,20,21,30,31,32,33,34,255}, 1/3/40 MSG_DEBUG in front, bad packet-length / padding fields, garbage and very long pre-banner lines, refused / timed-out / closed / silent connections at every connection index, 1/2/7-byte segmentation; runs of 1100 and 3500 MSG_DEBUG; identification strings with numbers of up to 70000 digits in every numeric position of 23 banner forms; the rate-check stage answered in 14 ways (closed, reset, refused, silent, greeted with MaxStartups text / partial banners / binary, every k-th connection only); Hypothesis byte mutations and double faults; non-trivial = the fault was actually reached',
+    return ctx.finish('fault_enumeration', 'for each of 10 transcript archetypes (Ed25519-only, RSA+certificates+GEX, GEX-first, SSH-1 with -1 (two key sizes: 1-7 and 8 bytes of padding), SSH-1 through the version-mismatch fallback, a peer answering every attempt with the version-mismatch text, client audit, policy audit, JSON) a clean run records every message of every connection; injected: truncation at every byte offset (sampled above 80 bytes in quick) then close / stall, every byte inverted / bit-flipped, close / stall / reset / duplicate, payload truncated at every byte and re-framed, every structural length field := 0, len-1, len+1, 2^31-1, 2^32-1, payload length, every message type from {0,1,2,4,20,21,30,31,32,33,34,255}, 1/3/40 MSG_DEBUG in front, bad packet-length / padding fields, garbage and very long pre-banner lines, refused / timed-out / closed / silent connections at every connection index, 1/2/7-byte segmentation; runs of 1100 and 3500 MSG_DEBUG; identification strings with numbers of up to 70000 digits in every numeric position of 23 banner forms; the rate-check stage answered in 14 ways (closed, reset, refused, silent, greeted with MaxStartups text / partial banners / binary, every k-th connection only); Hypothesis byte mutations and double faults; non-trivial = the fault was actually reached',
                       assumptions=['virtual time: a stalled read costs exactly the configured timeout', 'well-formedness of the first handshake is judged by the independent strict parser in vlib/wire.py; inputs it rejects but that still decode as a KEXINIT may go either way'])
